@@ -65,7 +65,7 @@ var alphabet = func() []step {
 	for _, b := range []string{"success", "silence", "late", "just-in-time", "flood-then-valid", "flood-only", "send-fails"} {
 		a = append(a, step{"broadcast", b, "GetCards"})
 	}
-	for _, b := range []string{"success", "stall", "refused", "reset", "eof", "blackhole", "late", "just-in-time", "send-fails"} {
+	for _, b := range []string{"success", "stall", "refused", "reset", "eof", "blackhole", "late", "just-in-time", "send-fails", "slow-accept-stall", "slow-accept-success"} {
 		a = append(a, step{"tcp", b, "GetCards"})
 	}
 	for _, p := range []string{"udp", "tcp", "broadcast"} {
@@ -90,6 +90,10 @@ func expect(s step) (time.Duration, bool) {
 		return T, true
 	}
 	switch s.behaviour {
+	case "slow-accept-success": // connected after 0.5 T, answered 0.25 T later
+		return 3 * T / 4, true
+	case "slow-accept-stall": // connected after 0.5 T, then nothing: the timeout runs from the start of the call
+		return T, false
 	case "success":
 		return T / 4, true
 	case "just-in-time", "flood-then-valid":
@@ -139,7 +143,7 @@ func newWorld() *world {
 			stray := append([]byte{}, valid...)
 			binary.LittleEndian.PutUint32(stray[4:8], s+7)
 			switch w.cur.behaviour {
-			case "success":
+			case "success", "slow-accept-success":
 				return []farm.Reply{{Delay: T / 4, Data: valid}}
 			case "late":
 				return []farm.Reply{{Delay: T + eps, Data: valid}}
@@ -184,6 +188,8 @@ func (w *world) set(s step) {
 			w.ctrls["tcp"].TCP = "refuse"
 		case "blackhole":
 			w.ctrls["tcp"].TCP = "blackhole"
+		case "slow-accept-stall", "slow-accept-success":
+			w.ctrls["tcp"].TCP = "accept-after:" + (T / 2).String()
 		}
 	}
 }
@@ -462,7 +468,7 @@ func main() {
 	if r.Worker == "" && r.Replay == "" {
 		e1.Conformance(r)
 	}
-	r.Rule(fmt.Sprintf("histories: every sequence of length <= %d (fixed bind port: <= %d) over %d steps (path x network behaviour incl. silence, late and just-in-time replies, stray flood, TCP stall/refused/reset/EOF/blackhole, ICMP unreachable, SetAddress, discovery), step by step as environment choices; histories of length <= 2 again with client timeouts of 300 ms, 1.5 s, 2.5 s and 90 s; fixed-port scenarios with 2 and 3 concurrent callers (silent holders first; TCP refused / reset / EOF / blackholed next to calls that must be served) over all interleavings within the preemption bound. distinct = distinct history/outcome labels", maxLen, maxFixed, len(alphabet)))
+	r.Rule(fmt.Sprintf("histories: every sequence of length <= %d (fixed bind port: <= %d) over %d steps (path x network behaviour incl. silence, late and just-in-time replies, stray flood, TCP stall/refused/reset/EOF/blackhole/connection established late, ICMP unreachable, SetAddress, discovery), step by step as environment choices; histories of length <= 2 again with client timeouts of 300 ms, 1.5 s, 2.5 s and 90 s; fixed-port scenarios with 2 and 3 concurrent callers (silent holders first; TCP refused / reset / EOF / blackholed next to calls that must be served) over all interleavings within the preemption bound. distinct = distinct history/outcome labels", maxLen, maxFixed, len(alphabet)))
 	r.Assume("virtual time: computation takes no time, so 'within the timeout' is decided with zero scheduling slack")
 	r.Assume("network behaviours are those of mc/shim/vs/net.go (refused connect fails immediately, blackholed connect blocks until the dial deadline, ICMP unreachable surfaces as a read error)")
 	r.Finish()
